@@ -1,0 +1,14 @@
+//go:build verif
+
+package timed
+
+// VerifYield is a verification hook (build tag verif only). When set, Poll calls it right after it popped an element
+// and released the heap mutex, before it creates the timer and enters the select; queue is the *Queue[T], element the
+// *QueueElement[T]. It must be set before any queue is used and is a no-op when nil.
+var VerifYield func(point string, queue any, element any)
+
+func verifYield(point string, queue any, element any) {
+	if f := VerifYield; f != nil {
+		f(point, queue, element)
+	}
+}
